@@ -1,9 +1,9 @@
 package sim
 
 import (
-	"os"
 	"fmt"
 	"math/big"
+	"os"
 	"sort"
 	"time"
 
@@ -35,17 +35,17 @@ type segInfo struct {
 }
 
 type muxAnalysis struct {
-	o       *muxObs
-	cfg     *muxCfg
-	lead    *trackSpec
-	byPay   map[string]*unit
-	segDec  map[int][]decUnit // track id -> decoded units from complete segments, playlist order
-	partDec map[int][]decUnit // track id -> decoded units from parts (LL), part order
-	segs    []*segInfo        // complete segments of the leading stream, by msn
-	openStart int            // leading unit index that starts the open segment (-1: no complete segment observed)
-	partsOf map[int][]*mediaObj
-	fail    func(oracle, key, format string, a ...any)
-	failed  bool
+	o             *muxObs
+	cfg           *muxCfg
+	lead          *trackSpec
+	byPay         map[string]*unit
+	segDec        map[int][]decUnit // track id -> decoded units from complete segments, playlist order
+	partDec       map[int][]decUnit // track id -> decoded units from parts (LL), part order
+	segs          []*segInfo        // complete segments of the leading stream, by msn
+	openStart     int               // leading unit index that starts the open segment (-1: no complete segment observed)
+	partsOf       map[int][]*mediaObj
+	fail          func(oracle, key, format string, a ...any)
+	failed        bool
 	streamOfTrack map[int]*streamObs
 }
 
